@@ -16,10 +16,22 @@ func init() {
 					js = append(js, sym.Job{Harness: "VH_C16_reply", Params: map[string]int{"L": ls[i], "handler": h}})
 				}
 			}
+			// a malformed frame (not Modbus TCP: truncated to the bare function code, or a foreign protocol id) that arrives
+			// behind valid requests, in the same read or the next: its exception must be addressed to its own header, not to
+			// whatever else is buffered (the reference is the reply the same frame gets when it arrives alone)
+			for _, ks := range [][]int{{8}, {0, 8}, {2, 8}, {7, 8}, {0, 1, 8}} {
+				for r := 1; r <= 2; r++ {
+					pm := map[string]int{"frames": len(ks), "reads": r, "k0": 0, "k1": 0, "k2": 0}
+					for i, k := range ks {
+						pm[[]string{"k0", "k1", "k2"}[i]] = k
+					}
+					js = append(js, sym.Job{Harness: "VH_C15_segmentation", Params: pm})
+				}
+			}
 			return js
 		},
 		Bounds: map[string]string{
-			"quick":    "one complete request frame of every length in {8..20, 255..262}: all bytes symbolic under a valid MBAP header (protocol id 0, consistent length field) and function code 1..127 - valid requests, unsupported functions, out-of-range quantities, truncated bodies, inconsistent byte counts; handler outcome in {conforming response, typed error packet.NewErrorParseTCP(code,..) with symbolic code, generic error}",
+			"quick":    "one complete request frame of every length in {8..20, 255..262}: all bytes symbolic under a valid MBAP header (protocol id 0, consistent length field) and function code 1..127 - valid requests, unsupported functions, out-of-range quantities, truncated bodies, inconsistent byte counts; handler outcome in {conforming response, typed error packet.NewErrorParseTCP(code,..) with symbolic code, generic error}; plus streams in which a malformed frame (truncated to the bare function code, or a foreign protocol id) follows 0..2 valid requests (FC3, FC6, FC16, FC23) in the same read or the next one",
 			"thorough": "frame lengths 8..262",
 		},
 		Outside:   []string{"frames longer than 262 bytes", "a panicking handler and isolation between connections are judged in C17's serve harness (no panic escapes the connection body)"},
@@ -62,6 +74,12 @@ func init() {
 					}
 				}
 			}
+			// FC23 (the longest fixed header) alone and next to another request
+			for _, ks := range [][]int{{7}, {0, 7}, {7, 0}} {
+				for r := 1; r <= 3; r++ {
+					add(len(ks), r, ks...)
+				}
+			}
 			// long frames: the largest request followed / preceded by short ones (more than 260 bytes buffered at once)
 			for _, ks := range [][]int{{5, 0}, {0, 5}, {6, 0, 0}, {5, 5}} {
 				for r := 1; r <= 2; r++ {
@@ -71,7 +89,7 @@ func init() {
 			return js
 		},
 		Bounds: map[string]string{
-			"quick":    "streams of 1..3 request frames (kinds: FC3, FC6, FC16 with payload, unsupported function, out-of-range quantity; transaction id, unit, addresses, values symbolic); single frames cut into up to 4 reads, two frames into up to 3 reads, three frames into 2..3 reads, with EVERY cut position (case-split over all byte offsets); lock-step and pipelined (next request in the same read) arrivals; plus streams with the largest request (FC16 with 123 registers, 260 bytes; 110 registers, 233 bytes) next to short ones, in 1..2 reads with every cut position, so that more than one maximal frame is buffered at once",
+			"quick":    "streams of 1..3 request frames (kinds: FC3, FC6, FC16 with payload, FC23, unsupported function, out-of-range quantity; transaction id, unit, addresses, values symbolic); single frames cut into up to 4 reads, two frames into up to 3 reads, three frames into 2..3 reads, with EVERY cut position (case-split over all byte offsets); lock-step and pipelined (next request in the same read) arrivals; plus streams with the largest request (FC16 with 123 registers, 260 bytes; 110 registers, 233 bytes) next to short ones, in 1..2 reads with every cut position, so that more than one maximal frame is buffered at once",
 			"thorough": "same as quick (the bound is the claim)",
 		},
 		Outside:   []string{"more frames / reads than the bound", "the connection loop around the assembler (reads are handed to ReceiveRead one by one, as connection.handle does)"},
